@@ -82,3 +82,11 @@ def open_vhd(files, opaque, p):
     from dissect.hypervisor.disk.vhd import VHD
 
     return VHD(files["img"])
+
+
+@register("hds")
+def open_hds(files, opaque, p):
+    from dissect.hypervisor.disk.hdd import HDS
+
+    parent = opaque["parent"] if p.get("has_parent") else None
+    return HDS(files["img"], parent)
